@@ -201,6 +201,9 @@ func checkC20(c *Check) {
 			uh = mc.Fn.(*ssa.Function)
 		}
 	})
+	if uh == nil && len(unc.AnonFuncs) > 0 {
+		uh = unc.AnonFuncs[0] // a function literal that captures nothing is not a closure
+	}
 	for _, h := range []*ssa.Function{handler, uh} {
 		if h == nil {
 			continue
@@ -226,6 +229,11 @@ func checkC20(c *Check) {
 		if n == 0 {
 			c.Fail("R20.5", "lz4c."+h.Parent().Name()+"#output-mode", p.Pos(h.Pos()), "output files are created with os.OpenFile", "no os.OpenFile call")
 		}
+	}
+	// R20.9: the extension appended by compress is removed by uncompress as a suffix
+	c.RuleDoc["R20.9"] = "output name of uncompress: the extension is removed as an exact suffix"
+	if uh != nil {
+		ruleSuffixInverse(c, p, handler, uh, "R20.9")
 	}
 	// R20.8 client typestate
 	ruleClientTypestate(c, p, handler, "Writer", "compress")
